@@ -9095,7 +9095,8 @@ class SVG(Group):
 
         # Semiparse the nodes. All nodes are given in iterparse ordering with start-ns, start, and end.
         # Use values are inlined.
-        def semiparse(nodes):
+        def semiparse(nodes, active=()):
+            # active: ids of the elements currently being expanded, a use referencing one of them is a cycle.
             for elem, children in nodes:
                 if children is None:
                     yield None, "start-ns", elem
@@ -9104,17 +9105,20 @@ class SVG(Group):
                 if tag.startswith("{http://www.w3.org/2000/svg"):
                     tag = tag[28:]  # Removing namespace. http://www.w3.org/2000/svg:
                 yield tag, "start", elem
-                yield from semiparse(children)
+                semiattr = elem.attrib
+                inside = active
+                if SVG_ATTR_ID in semiattr:
+                    inside = active + (semiattr[SVG_ATTR_ID],)
+                yield from semiparse(children, inside)
                 if SVG_TAG_USE == tag:
                     url = None
-                    semiattr = elem.attrib
                     if XLINK_HREF in semiattr:
                         url = semiattr[XLINK_HREF]
                     if SVG_HREF in semiattr:
                         url = semiattr[SVG_HREF]
-                    if url is not None:
+                    if url is not None and url[1:] not in inside:
                         try:
-                            yield from semiparse([event_defs[url[1:]]])
+                            yield from semiparse([event_defs[url[1:]]], inside)
                         except KeyError:
                             pass  # Failed to find link.
                 yield tag, "end", elem
